@@ -6,6 +6,10 @@ let ni s = n_of_int (int_of_string s)
 let si x = string_of_int (int_of_n x)
 let split c s = String.split_on_char c s
 let opt f = function Some x -> f x | None -> "-"
+(* names: "0" is the apex, otherwise label numbers from the apex downwards joined by '.' *)
+let path s = if s = "0" then [] else List.map ni (split '.' s)
+let show_path = function [] -> "0" | p -> String.concat "." (List.map si p)
+let nopt s = if s = "-" then None else Some (ni s)
 
 let show_entries (d : (n * n option) list) =
   (* model lists are newest first; print in Vec order *)
@@ -28,17 +32,22 @@ let show_answer = function
   | ANx soa -> "X(" ^ opt si soa ^ ")"
   | ANoData soa -> "N(" ^ opt si soa ^ ")"
   | AData rr -> "D" ^ si rr
+  | AAny -> "Y"
   | ACname id -> "C" ^ si id
+  | ARefer (ns, ds, glue) -> "R" ^ si ns ^ "(" ^ opt si ds ^ ")(" ^ opt si glue ^ ")"
 
 let show_obs = function
   | OAnswer a -> show_answer a
   | OWalk l ->
-      let l = List.map (fun ((a, b), c) -> (int_of_n a, int_of_n b, int_of_n c)) l in
+      let l = List.map (fun ((a, b), c) -> (show_path a, int_of_n b, int_of_n c)) l in
       let l = List.sort compare l in
-      "W[" ^ String.concat "," (List.map (fun (a, b, c) -> Printf.sprintf "%d.%d.%d" a b c) l) ^ "]"
+      "W[" ^ String.concat "," (List.map (fun (a, b, c) -> Printf.sprintf "%s/%d/%d" a b c) l) ^ "]"
   | ONoReader -> "noreader"
   | OGranted -> "granted"
   | OPending -> "pending"
+  | OStaleDone -> "sdone"
+  | OStaleRejected -> "srej"
+  | OStaleNoHandle -> "snone"
 
 let rec split_at_semi acc = function
   | [] -> (List.rev acc, [])
@@ -48,26 +57,30 @@ let rec split_at_semi acc = function
 let trace_case ws =
   let (is, evs) = split_at_semi [] ws in
   let is = List.map (fun w -> match split ':' w with
-    | ["i"; n; t; rr] -> IRrset (ni n, ni t, ni rr)
-    | ["ic"; n; id] -> ICname (ni n, ni id)
+    | ["i"; n; t; rr] -> IRrset (path n, ni t, ni rr)
+    | ["ic"; n; id] -> ICname (path n, ni id)
+    | ["iz"; n; ns; ds; glue] -> ICut (path n, ni ns, nopt ds, nopt glue)
     | _ -> failwith "bad init") is in
-  let evs = List.map (fun w -> match split ':' w with
+  let rec ev = function
     | ["A"; r] -> EAcquire (ni r)
-    | ["Q"; r; n; t] -> EQuery (ni r, ni n, ni t)
+    | ["Q"; r; n; t] -> EQuery (ni r, path n, ni t)
     | ["W"; r] -> EWalk (ni r)
     | ["R"; r] -> ERelease (ni r)
     | ["wa"] -> EWAcquire
     | ["wo"] -> EWOpen
-    | ["u"; n; t; rr] -> EUpdate (ni n, ni t, ni rr)
-    | ["r"; n; t] -> ERemove (ni n, ni t)
-    | ["t"; n] -> ETouch (ni n)
+    | ["u"; n; t; rr] -> EUpdate (path n, ni t, ni rr)
+    | ["r"; n; t] -> ERemove (path n, ni t)
+    | ["t"; n] -> ETouch (path n)
     | ["ra"] -> ERemoveAll
-    | ["rn"; n] -> ERemoveAllAt (ni n)
-    | ["cn"; n; id] -> ECname (ni n, ni id)
-    | ["rg"; n] -> ERegular (ni n)
+    | ["rn"; n] -> ERemoveAllAt (path n)
+    | ["cn"; n; id] -> ECname (path n, ni id)
+    | ["ct"; n; ns; ds; glue] -> ECut (path n, ni ns, nopt ds, nopt glue)
+    | ["rg"; n] -> ERegular (path n)
     | ["c"] -> ECommit
     | ["d"] -> EDrop
-    | _ -> failwith "bad event") evs in
+    | "s" :: rest -> EStale (ev rest)
+    | _ -> failwith "bad event" in
+  let evs = List.map (fun w -> ev (split ':' w)) evs in
   match c09_trace is evs with
   | [] -> "-"
   | l -> String.concat " " (List.map show_obs l)
